@@ -30,9 +30,13 @@ def handleC23 (quirks : List String) (op : String) (args : List String) : String
     | some ps, some ts =>
       let ta := ts.toArray
       if ps.any (fun (i, j) => i ≥ ta.size || j ≥ ta.size) then "bad-args" else
-      let qa : SuperQuirks := { attrQuoteMix := quirks.contains "attrQuoteMix" }
+      -- `parentStrict` is a C24 matter (it does not touch any C23 law): the specification
+      -- column keeps the implementation's choice so that only C23's own flag separates them
+      let strict := quirks.contains "parentStrict"
+      let qa : SuperQuirks := { attrQuoteMix := quirks.contains "attrQuoteMix", parentStrict := strict }
+      let qs : SuperQuirks := { parentStrict := strict }
       let printed := String.intercalate "," (ts.map fun t => Proto.hexOfString (SelSet.toString t))
-      C23.answer qa ps ta ++ "|" ++ printed ++ "\t" ++ C23.answer superSpec ps ta ++ "|" ++ printed
+      C23.answer qa ps ta ++ "|" ++ printed ++ "\t" ++ C23.answer qs ps ta ++ "|" ++ printed
     | _, _ => "bad-args"
   | _, _ => "bad-op"
 
